@@ -651,6 +651,15 @@ def rtp_gop_start(v, body):
     return True          # a codec the server cannot classify: nothing to wait for
 
 
+def rtp_video_gop_start(p):
+    """a GOP starts at a packet of the VIDEO track (payload type 96 in every SDP of the histories) whose payload begins a
+    random access point; the payload of an audio packet is no NAL unit, whatever its first bytes look like"""
+    v = p["sdp"][1]
+    if v in ("a", "h") and p["pt"] != 96:
+        return False
+    return rtp_gop_start(v, p["body"])
+
+
 def check_rtsp(cfg, evs, obs, clauses=("sdp", "gate", "run")):
     """every RTSP subscriber (D events) of the history; returns None or (tag, message)"""
     pkts = []        # dict(pos, pt, body, sdp=(k, v) in force or None)
@@ -732,13 +741,13 @@ def check_rtsp(cfg, evs, obs, clauses=("sdp", "gate", "run")):
         deliverable = [j for j in cand if pkts[j]["pt"] in (96, 97)]
         gated = bool(cfg.get("rw")) and video_known_at[play]
         if gated:
-            starts = [j for j in cand if pkts[j]["sdp"] is not None and rtp_gop_start(pkts[j]["sdp"][1], pkts[j]["body"])]
+            starts = [j for j in cand if pkts[j]["sdp"] is not None and rtp_video_gop_start(pkts[j])]
             first = starts[0] if starts else None
         else:
             first = cand[0] if cand else None
         if "gate" in clauses and got:
             j0 = got[0]
-            if gated and not (pkts[j0]["sdp"] is not None and pkts[j0]["pt"] is not None and rtp_gop_start(pkts[j0]["sdp"][1], pkts[j0]["body"])):
+            if gated and not (pkts[j0]["sdp"] is not None and pkts[j0]["pt"] is not None and rtp_video_gop_start(pkts[j0])):
                 return ("F-32", "RTSP subscriber %s: the first packet it received (p%d) does not start a GOP although the stream has video" % (cid, j0))
         if "run" in clauses:
             exp = [j for j in deliverable if first is not None and j >= first]
